@@ -648,9 +648,10 @@ def gen_ops(ctx, codes):
             continue
         big = c['n'] >= 11
         if big and quick:
-            # the 11-qubit code: everything except its KL table (31 713 errors; thorough tier, with its Lean theorem)
+            # the 11-qubit code in the quick tier: code words, check_stabilizer, Gram matrix, listed strings
+            # (tableau / circuit-unitary / KL-table ops need 2048x2048 unitaries and 31 713 errors: thorough tier)
             ops += [f'C19 cw {lname} {a}' for a in range(c['K'])]
-            ops += [f'C19 gens {lname}', f'C19 fix {lname}', f'C19 chk {lname}', f'C19 ortho {lname}', f'C19 scirc {lname}', f'C19 listed {lname}']
+            ops += [f'C19 chk {lname}', f'C19 ortho {lname}', f'C19 listed {lname}']
             continue
         ops += [f'C19 cw {lname} {a}' for a in range(c['K'])]
         ops += [f'C19 gens {lname}', f'C19 fix {lname}', f'C19 chk {lname}', f'C19 ortho {lname}', f'C19 kl {lname}', f'C19 scirc {lname}',
@@ -880,13 +881,24 @@ def probe_code(ctx, c, with_library_kl=True):
         else:
             ctx.probe_ok((tag, 'circ-fix', j))
         # as an operator: the circuit's unitary (real simulator) equals the listed Pauli string, every entry
+        # (11 qubits, quick tier: the columns |0>, |e_q> and 16 seeded ones instead of all 2048)
         if s is not None and len(s) == n and set(s) <= set('IXYZ'):
-            Uc = stab_unitary(c, j)
-            D = np.abs(Uc - pauli_matrix(s))
+            if n <= 10 or not ctx.quick():
+                Uc = stab_unitary(c, j)
+                D = np.abs(Uc - pauli_matrix(s))
+                cols = None
+            else:
+                N = 2 ** n
+                cols = sorted(set([0] + [1 << q for q in range(n)] + [ctx.rng.randrange(N) for _ in range(16)]))
+                E = np.zeros((len(cols), N), dtype=np.complex128)
+                E[np.arange(len(cols)), cols] = 1
+                Uc = np.stack([circ.apply_state(e.copy()) for e in E]).T      # selected columns
+                D = np.abs(Uc - pauli_apply(s, E).T)
             if D.max() > 1e-9:
                 r_, c_ = np.unravel_index(np.argmax(D), D.shape)
-                ctx.fail(f'{tag}:stab-circuit-operator', f'{name}: stabilizer circuit {j} differs from its listed string {s}: entry ({r_},{c_}) is {Uc[r_, c_]}',
-                         dict(code=name, op='stabilizer_circuit_operator', index=j, string=s, row=int(r_), col=int(c_), value=str(Uc[r_, c_]),
+                col = int(c_) if cols is None else cols[int(c_)]
+                ctx.fail(f'{tag}:stab-circuit-operator', f'{name}: stabilizer circuit {j} differs from its listed string {s}: entry ({r_},{col}) is {Uc[r_, c_]}',
+                         dict(code=name, op='stabilizer_circuit_operator', index=j, string=s, row=int(r_), col=col, value=str(Uc[r_, c_]),
                               gates=[(g.name, str(idx)) for g, idx in circ.gate_index_list]))
             else:
                 ctx.probe_ok((tag, 'circ-op', j))
